@@ -338,7 +338,7 @@ def clause_c(repo, chk):
         for with_grad in (True, False):
             hooks = {
                 "builtin.isinstance": lambda tr, ar, kw, n: isinstance(ar[0], SelfObj) and ar[0].cls is ne,
-                ne.key: lambda tr, ar, kw, n: ("NumberError", ar[0], ar[1] if len(ar) > 1 else kw.get("error")),
+                ne.key: lambda tr, ar, kw, n: ("NumberError", ar[0] if ar else kw.get("value"), ar[1] if len(ar) > 1 else kw.get("error")),
             }
             tr = Translator(repo, hooks=hooks, max_depth=2)
             fun = PyFunc(lambda *xs, **kw: sum(k * x for k, x in zip(ks, xs)))
